@@ -26,6 +26,11 @@ fn hub_sync(local: &Path, hub: &Path) -> (Option<i32>, String) {
 pub fn scenarios() -> Vec<(&'static str, fn() -> Option<String>)> {
     vec![("lands-the-tree-and-skips-what-is-there (C13)", sc_lands_and_skips), ("stale-listing-never-overwrites (C13)", sc_stale_listing)]
 }
+/// inode of every hub file: a Put publishes by rename, so a re-sent file gets a new inode (independent of message wording)
+fn inodes(r: &Path) -> BTreeMap<String, u64> {
+    use std::os::unix::fs::MetadataExt;
+    tree(r).keys().filter_map(|p| std::fs::metadata(r.join(p)).ok().map(|m| (p.clone(), m.ino()))).collect()
+}
 fn sc_lands_and_skips() -> Option<String> {
     let d = base("lands"); let (l, h) = (d.join("local"), d.join("hub"));
     let big: Vec<u8> = (0..300_000usize).map(|i| (i % 241) as u8).collect();
@@ -33,6 +38,7 @@ fn sc_lands_and_skips() -> Option<String> {
     // names that merely LOOK like the hub's control directory are ordinary files
     put(&l, ".copiaignore", b"*.o"); put(&l, ".copia-hooks/pre-push", b"#!/bin/sh"); put(&l, "x.copia", b"suffix");
     put(&h, "other", b"keep me"); put(&h, "a.txt", b"an older alpha"); put(&h, "same", b"already there");
+    let ino0 = inodes(&h);
     let (rc, out) = hub_sync(&l, &h);
     let res = (|| {
         if rc != Some(0) { return Some(format!("hub-sync of a fresh tree onto a quiet hub exits {rc:?}: {} (C13)", out.lines().last().unwrap_or(""))); }
@@ -40,10 +46,13 @@ fn sc_lands_and_skips() -> Option<String> {
         for (p, v) in &tl { if th.get(p) != Some(v) { return Some(format!("after hub-sync exited 0, hub `{p}` does not hold the local file's bytes (C13)")); } }
         if th.get("other").map(|v| v.as_slice()) != Some(b"keep me".as_slice()) { return Some("hub-sync touched a hub path that is not in the local tree (C13)".into()); }
         if th.keys().any(|p| p.contains(".conflict-")) { return Some("hub-sync on a quiet hub left a conflict copy (its `expected` was not the listed hash) (C13)".into()); }
-        if !out.contains("1 unchanged") { return Some(format!("the file the hub already had was not skipped: {} (C13)", out.lines().last().unwrap_or(""))); }
+        let ino1 = inodes(&h);
+        if ino1.get("same") != ino0.get("same") { return Some("the file the hub already had (same bytes) was sent again: its hub file was replaced (C13)".into()); }
         let (rc2, out2) = hub_sync(&l, &h);
-        if rc2 != Some(0) || !out2.contains("0 sent") { return Some(format!("an immediate second hub-sync sends something / fails: exit {rc2:?}, {} (C13)", out2.lines().last().unwrap_or(""))); }
+        if rc2 != Some(0) { return Some(format!("an immediate second hub-sync fails: exit {rc2:?}, {} (C13)", out2.lines().last().unwrap_or(""))); }
         if tree(&h) != th { return Some("an immediate second hub-sync changed the hub (C13)".into()); }
+        let ino2 = inodes(&h);
+        if let Some(p) = ino1.keys().find(|p| ino2.get(*p) != ino1.get(*p)) { return Some(format!("an immediate second hub-sync sent `{p}` again (its hub file was replaced) although nothing changed (C13)")); }
         None
     })();
     let _ = std::fs::remove_dir_all(&d);
